@@ -42,6 +42,11 @@ ASSUME \A t \in SmallTables : \A prev \in LNames : \A new \in LNames :
          /\ PairsOf(r.tbl) = MP!Reg(PairsOf(t), prev, new)
          /\ r.panic = ~MP!Accepted(PairsOf(t), prev, new)
 
+\* ... and the function form TLAPS proves correct for any set of names (MigProof)
+MF == INSTANCE MigFun
+ASSUME \A t \in SmallTables : \A prev \in LNames : \A new \in LNames \ DOMAIN t :
+         RegisterMigration(t, prev, new, {}).tbl = MF!RegTbl(t, prev, new)
+
 CONSTANT Dup    \* TRUE: also try to register an already registered target again
 
 Src3 == IF Lin(3) THEN 3 ELSE 2
